@@ -20,7 +20,32 @@ func init() {
 // toNumberStringFunc: the function of package otto that converts text to a Number: func(string) float64 calling
 // strconv.ParseFloat (nil when there is none or more than one).
 func toNumberStringFunc(c *Ctx) *ssa.Function {
-	var fn *ssa.Function
+	// candidates: func(string) float64 from which strconv.ParseFloat is reached directly or through package functions
+	// (two levels); the conversion is the candidate no other candidate calls (its helpers are candidates too when they
+	// have the same signature)
+	var reachesPF func(f *ssa.Function, d int) bool
+	reachesPF = func(f *ssa.Function, d int) bool {
+		for _, b := range f.Blocks {
+			for _, ins := range b.Instrs {
+				call, ok := ins.(*ssa.Call)
+				if !ok {
+					continue
+				}
+				cal := call.Call.StaticCallee()
+				if cal == nil || cal.Pkg == nil {
+					continue
+				}
+				if cal.Pkg.Pkg.Path() == "strconv" && cal.Name() == "ParseFloat" {
+					return true
+				}
+				if d < 2 && cal.Pkg == f.Pkg && cal.Blocks != nil && cal != f && reachesPF(cal, d+1) {
+					return true
+				}
+			}
+		}
+		return false
+	}
+	var cands []*ssa.Function
 	for _, f := range c.AllSrcFuncs("") {
 		if f.Parent() != nil || f.Signature.Recv() != nil || len(f.Params) != 1 || f.Signature.Results().Len() != 1 {
 			continue
@@ -28,51 +53,39 @@ func toNumberStringFunc(c *Ctx) *ssa.Function {
 		if typeStr(f.Params[0].Type()) != "string" || typeStr(f.Signature.Results().At(0).Type()) != "float64" {
 			continue
 		}
-		for _, b := range f.Blocks {
-			for _, ins := range b.Instrs {
-				if call, ok := ins.(*ssa.Call); ok {
-					if cal := call.Call.StaticCallee(); cal != nil && cal.Pkg != nil && cal.Pkg.Pkg.Path() == "strconv" && cal.Name() == "ParseFloat" {
-						if fn != nil && fn != f {
-							return nil
-						}
-						fn = f
+		if reachesPF(f, 0) {
+			cands = append(cands, f)
+		}
+	}
+	var roots []*ssa.Function
+	for _, f := range cands {
+		called := false
+		for _, g := range cands {
+			if g == f {
+				continue
+			}
+			for _, b := range g.Blocks {
+				for _, ins := range b.Instrs {
+					if call, ok := ins.(*ssa.Call); ok && call.Call.StaticCallee() == f {
+						called = true
 					}
 				}
 			}
 		}
+		if !called {
+			roots = append(roots, f)
+		}
 	}
-	return fn
+	if len(roots) != 1 {
+		return nil
+	}
+	return roots[0]
 }
 
 func ruleSpecToNumberString(c *Ctx, r *R) {
-	var fn *ssa.Function
-	for _, f := range c.AllSrcFuncs("") {
-		if f.Parent() != nil || f.Signature.Recv() != nil || len(f.Params) != 1 || f.Signature.Results().Len() != 1 {
-			continue
-		}
-		if typeStr(f.Params[0].Type()) != "string" || typeStr(f.Signature.Results().At(0).Type()) != "float64" {
-			continue
-		}
-		calls := false
-		for _, b := range f.Blocks {
-			for _, ins := range b.Instrs {
-				if call, ok := ins.(*ssa.Call); ok {
-					if cal := call.Call.StaticCallee(); cal != nil && cal.Pkg != nil && cal.Pkg.Pkg.Path() == "strconv" && cal.Name() == "ParseFloat" {
-						calls = true
-					}
-				}
-			}
-		}
-		if calls {
-			if fn != nil {
-				r.undecided("anchor", "-", "UNRESOLVED: more than one func(string) float64 of package otto calls strconv.ParseFloat")
-				return
-			}
-			fn = f
-		}
-	}
+	fn := toNumberStringFunc(c)
 	if fn == nil {
-		r.undecided("anchor", "-", "UNRESOLVED: no func(string) float64 of package otto calls strconv.ParseFloat (ToNumber of a string)")
+		r.undecided("anchor", "-", "UNRESOLVED: not exactly one func(string) float64 of package otto converts text through strconv.ParseFloat (ToNumber of a string)")
 		return
 	}
 	errAtom := func(call *ssa.CallCommon, idx int, err error) aval {
